@@ -145,6 +145,14 @@ func TransformModuleFilesToModel( //nolint:funlen,gocognit,cyclop
 				continue
 			}
 
+			if condition.GetMetadata() == nil {
+				transformErrors = multierror.Append(transformErrors, &ModuleTransformationSingleError{
+					Msg: "file is not a module",
+				})
+
+				continue
+			}
+
 			condition.Metadata.SourceInfo = &openfgav1.SourceInfo{
 				File: module.Name,
 			}
